@@ -1,0 +1,121 @@
+//go:build verif
+
+// Machine-checked contracts for package memory (comment-only; read by /verif/govc).
+// Property C08: the memory blob store behaves like its capacity-bounded LRU model.
+//
+// View: blobs is a finite map key -> (size, complete, banned); the evictable set is the set of
+// members of evictQueue (container/list rank model), ordered by rank. bsize(s.blobs) is the ghost
+// sum of the sizes of the stored blobs.
+
+package memory
+
+//@ ghostsum bsize over map[string]*blob of v.size
+
+//@ specfunc nodeok(s *store, e *list.Element) bool = e.Value != nil && dyntype(e.Value) == typeid(string) && (unbox(e.Value, string) in s.blobs) && s.blobs[unbox(e.Value, string)].node == e
+
+//@ lockinv store.mu self s guards contents blobs, size, type blob, type list.Element, type list.List
+//@   invariant accounted: s.size == bsize(s.blobs)
+//@   invariant bounded: s.size <= s.capacity
+//@   invariant blob_ptr: forall k string :: k in s.blobs ==> s.blobs[k] != nil && allocated(s.blobs[k]) && s.blobs[k].data != nil && s.blobs[k].metadatas != nil
+//@   invariant blob_evictable: forall k string :: k in s.blobs ==> ((s.blobs[k].node != nil) <==> (s.blobs[k].complete && !s.blobs[k].evictionBanned))
+//@   invariant blob_node: forall k string :: k in s.blobs && s.blobs[k].node != nil ==> allocated(s.blobs[k].node) && s.blobs[k].node.list == s.evictQueue && s.blobs[k].node.Value == box(k)
+//@   invariant blob_distinct: forall k1 string, k2 string :: k1 in s.blobs && k2 in s.blobs && k1 != k2 ==> s.blobs[k1] != s.blobs[k2]
+//@   invariant queue_ok: forall e *list.Element :: e.list == s.evictQueue ==> nodeok(s, e)
+//@   invariant queue_wf: listwf(s.evictQueue)
+
+//@ specfunc sshape(s *store) bool = s != nil && s.blobs != nil && s.evictQueue != nil && allocated(s.evictQueue)
+
+// A blob is out of scope iff its completeness contradicts the requested scope.
+//@ func isOutOfScope
+//@   requires b != nil
+//@   ensures result == nil <==> !((b.complete && scope == storelib.BlobScopeIncomplete) || (!b.complete && scope == storelib.BlobScopeComplete))
+
+// Metrics only.
+//@ func store.emitUsageMetrics
+//@   trusted
+
+//@ func store.MarkComplete
+//@   requires sshape(s)
+//@   modifies *
+//@   ensures missing: !old(key in s.blobs) ==> result != nil
+//@   ensures completed: old(key in s.blobs) ==> result == nil && s.blobs[key].complete && s.blobs[key] == old(s.blobs[key])
+//@   ensures keys_same: forall k string :: (k in s.blobs) <==> old(k in s.blobs)
+//@   loop 0 invariant blob_ptr: forall k string :: k in s.blobs ==> s.blobs[k] != nil && allocated(s.blobs[k]) && s.blobs[k].data != nil && s.blobs[k].metadatas != nil
+//@   loop 0 invariant blob_evictable: forall k string :: k in s.blobs ==> ((s.blobs[k].node != nil) <==> (s.blobs[k].complete && !s.blobs[k].evictionBanned))
+//@   loop 0 invariant blob_node: forall k string :: k in s.blobs && s.blobs[k].node != nil ==> allocated(s.blobs[k].node) && s.blobs[k].node.list == s.evictQueue && s.blobs[k].node.Value == box(k)
+//@   loop 0 invariant blob_distinct: forall k1 string, k2 string :: k1 in s.blobs && k2 in s.blobs && k1 != k2 ==> s.blobs[k1] != s.blobs[k2]
+//@   loop 0 invariant inv_queue: (forall e *list.Element :: e.list == s.evictQueue ==> nodeok(s, e)) && listwf(s.evictQueue) && s.size == bsize(s.blobs) && s.size <= s.capacity
+//@   loop 0 invariant keys_same: (forall k string :: ((k in s.blobs) <==> old(k in s.blobs)) && s.blobs[k] == old(s.blobs[k])) && b == s.blobs[key] && b.complete
+
+//@ func store.BanEviction
+//@   requires sshape(s)
+//@   modifies *
+//@   ensures banned: result == nil ==> s.blobs[key].evictionBanned && s.blobs[key].node == nil && s.blobs[key] == old(s.blobs[key])
+//@   ensures keys_same: forall k string :: (k in s.blobs) <==> old(k in s.blobs)
+
+//@ func store.UnbanEviction
+//@   requires sshape(s)
+//@   modifies *
+//@   ensures unbanned: result == nil ==> !s.blobs[key].evictionBanned && s.blobs[key] == old(s.blobs[key])
+//@   ensures evictable_iff_complete: result == nil ==> ((s.blobs[key].node != nil) <==> s.blobs[key].complete)
+//@   ensures keys_same: forall k string :: (k in s.blobs) <==> old(k in s.blobs)
+
+// Runs with s.mu held. The caller passes the size of a blob it has just removed, which the lock
+// invariant bounds by s.size, so the "release more than reserved" branch is dead code.
+//@ func store.releaseSpace
+//@   held s.mu
+//@   requires s != nil && space <= s.size
+//@   modifies s.size
+//@   ensures released: s.size == old(s.size) - space
+
+// Opening a blob makes it the most recently used evictable blob; nothing else changes.
+//@ func store.Open
+//@   requires sshape(s)
+//@   modifies *
+//@   ensures missing: !old(key in s.blobs) ==> result1 != nil
+//@   ensures keys_same: forall k string :: ((k in s.blobs) <==> old(k in s.blobs)) && s.blobs[k] == old(s.blobs[k])
+//@   ensures most_recent: result1 == nil && s.blobs[key].node != nil ==> (forall e *list.Element :: e.list == s.evictQueue ==> e.rank <= s.blobs[key].node.rank)
+//@   ensures size_same: s.size == old(s.size)
+
+// Delete removes exactly the named blob (if it is in scope), releases exactly its bytes and
+// invalidates its data so that stale handles fail.
+//@ func store.Delete
+//@   requires sshape(s)
+//@   modifies *
+//@   ensures removed: result == nil ==> old(key in s.blobs) && !(key in s.blobs) && s.size == old(s.size) - old(s.blobs[key]).size
+//@   ensures handle_invalidated: result == nil ==> base(deref(old(s.blobs[key]).data)) == 0 && len(deref(old(s.blobs[key]).data)) == 0
+//@   ensures kept_on_error: result != nil ==> ((key in s.blobs) <==> old(key in s.blobs)) && s.size == old(s.size)
+//@   ensures others: forall k string :: k != key ==> ((k in s.blobs) <==> old(k in s.blobs)) && s.blobs[k] == old(s.blobs[k])
+
+// ---- admission and eviction ------------------------------------------------------------------
+//@ specfunc i_ptr(s *store) bool = forall k string :: k in s.blobs ==> s.blobs[k] != nil && allocated(s.blobs[k]) && s.blobs[k].data != nil && s.blobs[k].metadatas != nil
+//@ specfunc i_evictable(s *store) bool = forall k string :: k in s.blobs ==> ((s.blobs[k].node != nil) <==> (s.blobs[k].complete && !s.blobs[k].evictionBanned))
+//@ specfunc i_node(s *store) bool = forall k string :: k in s.blobs && s.blobs[k].node != nil ==> allocated(s.blobs[k].node) && s.blobs[k].node.list == s.evictQueue && s.blobs[k].node.Value == box(k)
+//@ specfunc i_distinct(s *store) bool = forall k1 string, k2 string :: k1 in s.blobs && k2 in s.blobs && k1 != k2 ==> s.blobs[k1] != s.blobs[k2]
+//@ specfunc i_queue(s *store) bool = forall e *list.Element :: e.list == s.evictQueue ==> nodeok(s, e)
+//@ specfunc only_evictions(s *store) bool = forall k string :: (k in s.blobs ==> old(k in s.blobs) && s.blobs[k] == old(s.blobs[k])) && (old(k in s.blobs) && !(k in s.blobs) ==> old(s.blobs[k].complete) && !old(s.blobs[k].evictionBanned) && base(deref(old(s.blobs[k]).data)) == 0)
+
+// reserveSpace runs with s.mu held. It evicts evictable blobs (complete and not banned) until
+// `space` more bytes fit, reserves them and returns true; or, when nothing is left to evict,
+// returns false with the accounting untouched by the request.
+//@ func store.reserveSpace
+//@   held s.mu
+//@   requires sshape(s) && s.size == bsize(s.blobs) && s.size <= s.capacity && listwf(s.evictQueue)
+//@   requires i_ptr(s) && i_evictable(s) && i_node(s) && i_distinct(s) && i_queue(s)
+//@   nopanic
+//@   modifies *
+//@   ensures reserved: result ==> s.size == bsize(s.blobs) + space && s.size <= s.capacity
+//@   ensures refused: !result ==> s.size == bsize(s.blobs) && s.size <= s.capacity && s.size + space > s.capacity && s.evictQueue.len == 0
+//@   ensures only_evictions: only_evictions(s)
+//@   ensures inv_ptr: i_ptr(s)
+//@   ensures inv_evictable: i_evictable(s)
+//@   ensures inv_node: i_node(s)
+//@   ensures inv_distinct: i_distinct(s)
+//@   ensures inv_queue: i_queue(s) && listwf(s.evictQueue)
+//@   loop 0 invariant acct: s.size == bsize(s.blobs) && s.size <= s.capacity && sshape(s)
+//@   loop 0 invariant only_evictions: only_evictions(s)
+//@   loop 0 invariant inv_ptr: i_ptr(s)
+//@   loop 0 invariant inv_evictable: i_evictable(s)
+//@   loop 0 invariant inv_node: i_node(s)
+//@   loop 0 invariant inv_distinct: i_distinct(s)
+//@   loop 0 invariant inv_queue: i_queue(s) && listwf(s.evictQueue)
